@@ -51,6 +51,24 @@ pub fn script(seed: u64, idx: u64) -> Trace {
             push(&mut t, Op::Restart { mode: CloseMode::FlushCrash, edits: Vec::new() });
         }
     }
+    if idx % 8 == 4 {
+        // a table dropped and created again under the same name within one session:
+        // whatever the old stream held must not come back
+        let mut id = t.ops.iter().map(|o| o.id).max().unwrap_or(0) + 1;
+        let mut push = |t: &mut Trace, op: Op| {
+            t.ops.push(OpRec { id, op });
+            id += 1;
+        };
+        let cols = || vec![ColSpec::new("K", CType::I16).key(), ColSpec::new("S", CType::Str(0)).nullable()];
+        push(&mut t, Op::CreateTable { name: "Re".into(), cols: cols() });
+        push(&mut t, Op::Insert { table: "Re".into(), rows: (1..=5).map(|i| vec![Val::Int(i), Val::Str(format!("Q92{}Q", i))]).collect() });
+        push(&mut t, Op::Restart { mode: CloseMode::IntoInner, edits: Vec::new() });
+        push(&mut t, Op::DropTable { name: "Re".into() });
+        push(&mut t, Op::CreateTable { name: "Re".into(), cols: cols() });
+        push(&mut t, Op::Insert { table: "Re".into(), rows: vec![vec![Val::Int(2), Val::Str("Q9299Q".into())]] });
+        push(&mut t, Op::Flush);
+        push(&mut t, Op::Restart { mode: CloseMode::IntoInner, edits: Vec::new() });
+    }
     if idx % 4 == 2 {
         // a summary stream longer than the container's 8 KiB stream buffer: loading it
         // at open needs a refill read; then a table change *before* a summary edit in
